@@ -360,18 +360,31 @@ func (w *Workspace) computeReachableLocked() (map[string]bool, []string) {
 	if w.rootJournalPath == "" {
 		return reachable, order
 	}
-	queue := []string{w.rootJournalPath}
+	// the include depth limit holds here as it does for a fresh resolution:
+	// the root journal is at level 0, a file at level k needs k < limit
+	maxDepth := include.DefaultLimits().MaxIncludeDepth
+	if w.loader != nil {
+		maxDepth = w.loader.Limits().MaxIncludeDepth
+	}
+	type visit struct {
+		path  string
+		depth int
+	}
+	queue := []visit{{w.rootJournalPath, 0}}
 	for len(queue) > 0 {
-		path := queue[0]
+		v := queue[0]
 		queue = queue[1:]
-		if reachable[path] {
+		if reachable[v.path] {
 			continue
 		}
-		reachable[path] = true
-		order = append(order, path)
-		for _, inc := range w.includeGraph[path] {
+		reachable[v.path] = true
+		order = append(order, v.path)
+		if v.depth+1 >= maxDepth {
+			continue
+		}
+		for _, inc := range w.includeGraph[v.path] {
 			if !reachable[inc] {
-				queue = append(queue, inc)
+				queue = append(queue, visit{inc, v.depth + 1})
 			}
 		}
 	}
@@ -420,6 +433,10 @@ func (w *Workspace) addMissingReachableLocked(reachable []string) bool {
 				continue
 			}
 			content = string(data)
+		}
+		// ... and is refused when it is larger than the size limit, as by the loader
+		if w.loader != nil && int64(len(content)) > w.loader.Limits().MaxFileSizeBytes {
+			continue
 		}
 		fileIndex, journal, _ := BuildFileIndexFromContent(path, content)
 		w.index.SetFileIndex(path, fileIndex)
